@@ -111,6 +111,9 @@ func init() {
 	}}
 	groups["present"] = group{gen: func(r *rand.Rand, n int, emit func(Op)) {
 		count := 0
+		/* each worker starts its walk through the control characters somewhere else (a worker of a
+		   quick run sees a dozen of them: from 0 they would all be C0 characters) */
+		ctlBase := r.Intn(78 * 6)
 		fuzzLarge = false // the model recomputes these items: no kilobyte names, no lists of hundreds
 		defer func() { fuzzLarge = true }()
 		genPubFuzz(r, n, func(op Op) {
@@ -123,14 +126,14 @@ func init() {
 			if count%3 == 0 {
 				/* one control character (all of them in turn), in one of its spellings, put into
 				   every string the item shows -- also exactly where a line of these widths ends */
-				doc = injectControls(r, doc.(string), count/3, widths)
+				doc = injectControls(r, doc.(string), ctlBase+count/3, widths)
 			}
 			/* a fresh item per width sequence: String/Preview share the Markup cache */
 			emit(Op{"op": "present", "doc": doc, "as": op["as"], "withid": op["withid"], "widths": widths})
 			if count%5 == 0 {
 				/* and, one code point after the other, a plain note / profile that carries the
 				   character in all its spellings in every place a body has */
-				emit(controlDoc(r, count/5))
+				emit(controlDoc(r, ctlBase+count/5))
 			}
 		})
 	}}
@@ -293,6 +296,43 @@ func controlDoc(r *rand.Rand, k int) Op {
 		}
 		doc["published"] = pickf()
 		doc["attributedTo"] = map[string]any{"type": "Person", "name": "A " + all, "preferredUsername": pickf()}
+	}
+	/* the same strings in the other shapes JSON-LD allows or a sloppy server sends: a value as a
+	   one-element list, a link as a bare string instead of an object (the character raw, where a
+	   URL keeps it: in the query, in an opaque address), language maps, a single attachment
+	   instead of a list */
+	rawc := string(c)
+	switch r.Intn(5) {
+	case 0:
+		for _, key := range []string{"name", "content", "summary", "preferredUsername", "mediaType", "published", "type"} {
+			if v, ok := doc[key]; ok && r.Intn(3) != 0 {
+				doc[key] = []any{v}
+			}
+		}
+		if a, ok := doc["attributedTo"].(map[string]any); ok {
+			a["name"], a["preferredUsername"] = []any{a["name"]}, []any{a["preferredUsername"]}
+		}
+	case 1:
+		if as == "post" {
+			bare := []any{"https://t.example/q?x=" + rawc + "y", "urn:x" + rawc + "y", "https://t.example/" + pickf() + "?" + rawc + "#" + rawc, "mailto:a" + rawc + "@t.example", "https://t.example/p" + rawc}
+			switch r.Intn(3) {
+			case 0:
+				doc["attachment"] = bare
+			case 1:
+				doc["attachment"] = append([]any{doc["attachment"].([]any)[0]}, bare...)
+			case 2:
+				doc["attachment"] = pick(r, bare)
+			}
+			doc["url"] = pick(r, []any{pick(r, bare), bare, []any{map[string]any{"type": "Link", "href": pick(r, bare), "mediaType": "video/mp4"}, pick(r, bare)}})
+		} else {
+			doc["icon"], doc["image"] = "https://t.example/i?"+rawc, []any{"urn:y" + rawc}
+			doc["url"] = "https://t.example/u?" + rawc
+		}
+	case 2:
+		doc["nameMap"], doc["contentMap"], doc["summaryMap"] = map[string]any{"en": "M " + all}, map[string]any{"en": content, "und": all}, map[string]any{"de": all}
+		if r.Intn(2) == 0 {
+			delete(doc, "name")
+		}
 	}
 	b, _ := json.Marshal(doc)
 	return Op{"op": "present", "doc": string(b), "as": as, "withid": as == "actor", "widths": []any{pick(r, []int{80, 40, 120}), pick(r, []int{3, 7, 12, 20})}}
